@@ -152,7 +152,7 @@ func (c11) Gen(r *rand.Rand, tier string, i int) any {
 	if !c12WellFormed(pt) || strings.Contains(fmt.Sprint(pt), "fn:Option") {
 		pt = t
 	}
-	shapes := []string{"copy", "pair", "list", "struct", "map", "member", "match-pair", "match-field", "copy-second-row", "cons", "join", "join-rev", "join-two-rows", "neg-prefix", "recursive-undeclared", "head-mode"}
+	shapes := []string{"copy", "pair", "list", "struct", "map", "member", "match-pair", "match-field", "copy-second-row", "cons", "join", "join-rev", "join-two-rows", "neg-prefix", "recursive-undeclared", "head-mode", "facts-and-rules"}
 	shape := shapes[r.Intn(len(shapes))]
 	if shape == "head-mode" {
 		// the declared head predicate carries a mode: whatever the mode, a fact derived by a rule has to lie inside
@@ -181,6 +181,33 @@ func (c11) Gen(r *rand.Rand, tier string, i int) any {
 		}
 		if mode == "'+'" {
 			shape = "head-mode-input" // see known finding F43
+		}
+		return c11Case{Text: nb.String(), Shape: shape, Syntax: syntax}
+	}
+	if shape == "facts-and-rules" {
+		// a predicate defined by unit clauses and by rules at once: its unit clauses are base facts and have to be
+		// checked against its declaration (or, when it is undeclared, have to count towards its inferred type)
+		trie := []string{"/name", "/foo", "/foo/a", "/bar", "/number", "/string", "/any"}
+		pick := func() string { return trie[r.Intn(len(trie))] }
+		members := map[string][]string{"/name": {"/bar/x", "/foo/y"}, "/foo": {"/foo/y", "/foo/a/z"}, "/foo/a": {"/foo/a/z"}, "/bar": {"/bar/x"}, "/number": {"1", "7"}, "/string": {"\"s\""}, "/any": {"/bar/x", "1", "\"s\""}}
+		qt, pt, ft := pick(), pick(), pick()
+		fact := members[ft][r.Intn(len(members[ft]))]
+		var nb strings.Builder
+		fmt.Fprintf(&nb, "Decl q(X) bound [%s].\n", qt)
+		for _, m := range members[qt] {
+			fmt.Fprintf(&nb, "q(%s).\n", m)
+		}
+		var cl []string
+		if r.Intn(2) == 0 {
+			fmt.Fprintf(&nb, "Decl p(X) bound [%s].\n", pt)
+			cl = []string{"p(" + fact + ").\n", "p(X) :- q(X).\n"}
+		} else {
+			fmt.Fprintf(&nb, "Decl out(X) bound [%s].\n", pt)
+			cl = []string{"r(" + fact + ").\n", "r(X) :- q(X).\n", "out(X) :- r(X).\n"}
+		}
+		r.Shuffle(len(cl), func(i, j int) { cl[i], cl[j] = cl[j], cl[i] })
+		for _, c := range cl {
+			nb.WriteString(c)
 		}
 		return c11Case{Text: nb.String(), Shape: shape, Syntax: syntax}
 	}
